@@ -39,3 +39,26 @@ pub use sender::TOIMaxLength;
 pub use sender::FDTPublishMode;
 pub use toiallocator::Toi;
 
+
+/// Verification hooks (feature `ypo_flute_verif` only)
+#[cfg(feature = "ypo_flute_verif")]
+pub mod verif_hooks {
+    pub mod block {
+        pub use super::super::block::*;
+    }
+    pub mod blockencoder {
+        pub use super::super::blockencoder::*;
+    }
+    pub mod fdt {
+        pub use super::super::fdt::*;
+    }
+    pub mod filedesc {
+        pub use super::super::filedesc::*;
+    }
+    pub mod sendersession {
+        pub use super::super::sendersession::*;
+    }
+    pub mod toiallocator {
+        pub use super::super::toiallocator::*;
+    }
+}
